@@ -75,6 +75,11 @@ def _run_script(comp: Any, o: dict, script: list, cname: str = 'cli0') -> None:
                 # "number of runtime workers / schedule" quantifier
                 from vf import c01_world
                 v = c01_world.run_case(comp, op[1])
+            elif k == 'c11wf':
+                # a workflow of real control passes (ParallelDo ...) on this
+                # real Compiler: C11's schedule quantifier
+                from vf import c11_world
+                v = c11_world.run_case(comp, op[1])
             else:
                 raise HarnessError(f'bad script op {op}')
             ev.append(list(op[:2]) + ['ok', v])
@@ -296,6 +301,7 @@ def _import_judges() -> None:
     import vf.judges  # noqa: F401
     import vf.checks.c13  # noqa: F401  (registers the API-history judge)
     import vf.c01_world  # noqa: F401  (registers the world-compile judge)
+    import vf.c11_world  # noqa: F401  (registers the ParallelDo judge)
 
 
 def run_item(item: tuple) -> dict:
@@ -361,6 +367,8 @@ def outcome_label(rec: dict) -> str:
         evs = rec['clients'][c].get('events', [])
         parts.append(','.join(
             f'{e[0]}:{e[2]}' + (f':{e[3]}' if e[2] == 'exc' else '')
+            + (f':{e[3]["label"]}' if e[2] == 'ok' and isinstance(e[3], dict)
+               and 'label' in e[3] else '')
             for e in evs))
     parts.append('W:' + ''.join(str(x[2]) for x in rec['log']
                                 if x[0] == 'run')[:40])
